@@ -28,6 +28,7 @@ type PathEnum struct {
 	MaxPaths         int
 
 	arrays map[*ssa.Alloc]map[int64]ssa.Value
+	locals map[*ssa.Alloc]bool // function-local cells whose address never escapes (only whole loads and stores)
 	depth  int
 	Paths  []*PathResult
 	Trunc  bool
@@ -39,6 +40,7 @@ type PathState struct {
 	Events []string
 	Taken  []Cond // branch outcomes in order
 	Alias  map[ssa.Value]ssa.Value // phi -> the value that flowed in on this path
+	Mem    map[*ssa.Alloc]ssa.Value // last value stored into a non-escaping local cell on this path
 	visits map[*ssa.BasicBlock]int
 	sigs   map[string]int
 	PE     *PathEnum
@@ -53,9 +55,12 @@ type PathResult struct {
 }
 
 func (st *PathState) clone() *PathState {
-	n := &PathState{sigs: make(map[string]int, len(st.sigs)), Env: make(map[ssa.Value]int64, len(st.Env)), visits: make(map[*ssa.BasicBlock]int, len(st.visits)), PE: st.PE, Data: map[string]interface{}{}, Alias: make(map[ssa.Value]ssa.Value, len(st.Alias))}
+	n := &PathState{sigs: make(map[string]int, len(st.sigs)), Env: make(map[ssa.Value]int64, len(st.Env)), visits: make(map[*ssa.BasicBlock]int, len(st.visits)), PE: st.PE, Data: map[string]interface{}{}, Alias: make(map[ssa.Value]ssa.Value, len(st.Alias)), Mem: make(map[*ssa.Alloc]ssa.Value, len(st.Mem))}
 	for k, v := range st.Alias {
 		n.Alias[k] = v
+	}
+	for k, v := range st.Mem {
+		n.Mem[k] = v
 	}
 	for k, v := range st.sigs {
 		n.sigs[k] = v
@@ -136,6 +141,29 @@ func (st *PathState) ArrayElem(ia *ssa.IndexAddr) (ssa.Value, bool) {
 
 func (pe *PathEnum) prepare() {
 	pe.arrays = map[*ssa.Alloc]map[int64]ssa.Value{}
+	pe.locals = map[*ssa.Alloc]bool{}
+	EachInstr(pe.Fn, func(in ssa.Instruction) {
+		a, ok := in.(*ssa.Alloc)
+		if !ok || a.Referrers() == nil {
+			return
+		}
+		for _, ref := range *a.Referrers() {
+			switch r := ref.(type) {
+			case *ssa.Store:
+				if r.Addr != ssa.Value(a) {
+					return // the address itself is stored somewhere
+				}
+			case *ssa.UnOp:
+				if r.Op != token.MUL {
+					return
+				}
+			case *ssa.DebugRef:
+			default:
+				return // field/index address, call argument, closure binding, ...
+			}
+		}
+		pe.locals[a] = true
+	})
 	EachInstr(pe.Fn, func(in ssa.Instruction) {
 		st, ok := in.(*ssa.Store)
 		if !ok {
@@ -178,6 +206,12 @@ func arrayLenOfType(t types.Type) (int64, bool) {
 }
 
 func (pe *PathEnum) evalInstr(in ssa.Instruction, st *PathState, prev *ssa.BasicBlock) {
+	if s, ok := in.(*ssa.Store); ok {
+		if a, ok := s.Addr.(*ssa.Alloc); ok && pe.locals[a] {
+			st.Mem[a] = st.Resolve(s.Val)
+		}
+		return
+	}
 	v, isVal := in.(ssa.Value)
 	if !isVal {
 		return
@@ -289,6 +323,16 @@ func (pe *PathEnum) evalInstr(in ssa.Instruction, st *PathState, prev *ssa.Basic
 				st.Env[x] = -a
 			}
 		case token.MUL:
+			// load of a non-escaping local cell (e.g. a result spilled because the function defers): the value
+			// stored last on this path
+			if a, ok := x.X.(*ssa.Alloc); ok && pe.locals[a] {
+				if v, ok := st.Mem[a]; ok {
+					st.Alias[x] = v
+					if k, ok := st.Known(v); ok {
+						st.Env[x] = k
+					}
+				}
+			}
 			// load of a literal array element with known index
 			if ia, ok := x.X.(*ssa.IndexAddr); ok {
 				if ev, ok := st.ArrayElem(ia); ok {
@@ -402,7 +446,7 @@ func (pe *PathEnum) Run() {
 	if len(pe.Fn.Blocks) == 0 {
 		return
 	}
-	st := &PathState{sigs: map[string]int{}, Env: map[ssa.Value]int64{}, visits: map[*ssa.BasicBlock]int{}, PE: pe, Data: map[string]interface{}{}, Alias: map[ssa.Value]ssa.Value{}}
+	st := &PathState{sigs: map[string]int{}, Env: map[ssa.Value]int64{}, visits: map[*ssa.BasicBlock]int{}, PE: pe, Data: map[string]interface{}{}, Alias: map[ssa.Value]ssa.Value{}, Mem: map[*ssa.Alloc]ssa.Value{}}
 	pe.walk(pe.Fn.Blocks[0], nil, st)
 }
 
